@@ -9,6 +9,7 @@ From Verif Require Import Base.Bytes Model.Chain Model.GoText Model.Envelope Mod
   Proofs.RefSem Proofs.RefSemSorted Proofs.RefSemMain
   Proofs.BuiltinsKit Proofs.BuiltinsMemo Proofs.BuiltinsValidate Proofs.BuiltinsSpec Proofs.BuiltinsDen
   Proofs.BuiltinsMain.
+From Verif Require Proofs.RefSem2Depth.
 From Coq Require Import Lia.
 
 Lemma mapM_In {A B} (g : A -> option B) (l : list A) (out : list B) (y : B) :
@@ -45,8 +46,16 @@ Lemma not_known_invalid : cknown invalid_access = true -> False.
 Proof. discriminate. Qed.
 
 Lemma cu_false_export c : contains_unknowns c = false ->
-  exists x, export big_fuel c = Some x /\ x_has_unknown x = false.
-Proof. unfold contains_unknowns. destruct (export big_fuel c) as [x|]; [eauto|discriminate]. Qed.
+  exists x, export_t c = Some x /\ x_has_unknown x = false.
+Proof. unfold contains_unknowns. destruct (export_t c) as [x|]; [eauto|discriminate]. Qed.
+
+(* containsSecrets from the evaluator's own view of the value *)
+Lemma cs_of_export_t c x : export_t c = Some x -> contains_secrets c = x_has_secret x.
+Proof. intro H. unfold contains_secrets. rewrite H. reflexivity. Qed.
+
+(* a scalar on top: the view is that scalar, whatever the fuel *)
+Lemma export_t_scalar s u sc t r : export_t (LScalar s u sc t :: r) = Some (XScalar s u t).
+Proof. apply et_of_export. apply export_scalar_top. destruct big_fuel_S as [g ->]. discriminate. Qed.
 
 Lemma export_big_scalar s u sc t r : export big_fuel (LScalar s u sc t :: r) = Some (XScalar s u t).
 Proof. apply export_scalar_top. destruct big_fuel_S as [g ->]. discriminate. Qed.
@@ -57,9 +66,9 @@ Theorem tob64_inv v : cknown (tob64_post v) = true ->
 Proof.
   unfold tob64_post, tob64_pure. destruct (vok AccString v); cbn [negb]; [|intro H; destruct (not_known_unknown _ _ _ H)].
   cbv zeta. destruct (contains_unknowns v) eqn:Ecu; [intro H; destruct (not_known_unknown _ _ _ H)|].
-  destruct (cu_false_export _ Ecu) as (x & Ex & Hux). rewrite (cs_of_export _ _ Ex).
+  destruct (cu_false_export _ Ecu) as (x & Ex & Hux). rewrite (cs_of_export_t _ _ Ex).
   destruct v as [|[s u sc [| | |t]|s u sc e|s u sc p] r]; try (intro H; destruct (not_known_unknown _ _ _ H)).
-  intros _. rewrite export_big_scalar in Ex. injection Ex as <-.
+  intros _. rewrite export_t_scalar in Ex. injection Ex as <-.
   rewrite xhu_scalar in Hux. subst u. rewrite xhs_scalar.
   exists (XScalar s false (SStr t)), (XScalar s false (SStr (b64_encode t))).
   split; [apply export_big_scalar|]. split; [reflexivity|]. exists s, (b64_encode t). split; reflexivity.
@@ -70,10 +79,10 @@ Theorem fromb64_inv v : cknown (fromb64_post v) = true ->
 Proof.
   unfold fromb64_post, fromb64_pure. destruct (vok AccString v); cbn [negb]; [|intro H; destruct (not_known_unknown _ _ _ H)].
   cbv zeta. destruct (contains_unknowns v) eqn:Ecu; [intro H; destruct (not_known_unknown _ _ _ H)|].
-  destruct (cu_false_export _ Ecu) as (x & Ex & Hux). rewrite (cs_of_export _ _ Ex).
+  destruct (cu_false_export _ Ecu) as (x & Ex & Hux). rewrite (cs_of_export_t _ _ Ex).
   destruct v as [|[s u sc [| | |t]|s u sc e|s u sc p] r]; try (intro H; destruct (not_known_unknown _ _ _ H)).
   destruct (b64_decode t) as [b|] eqn:Eb; [|intro H; destruct (not_known_unknown _ _ _ H)].
-  intros _. rewrite export_big_scalar in Ex. injection Ex as <-.
+  intros _. rewrite export_t_scalar in Ex. injection Ex as <-.
   rewrite xhu_scalar in Hux. subst u. rewrite xhs_scalar.
   exists (XScalar s false (SStr t)), (XScalar s false (SStr b)).
   split; [apply export_big_scalar|]. split; [cbn [spec_fromb64]; rewrite Eb; reflexivity|].
@@ -85,10 +94,12 @@ Theorem tojson_inv v : cknown (tojson_post v) = true ->
 Proof.
   unfold tojson_post. cbv zeta.
   destruct (contains_unknowns v) eqn:Ecu; [intro H; destruct (not_known_unknown _ _ _ H)|].
-  destruct (cu_false_export _ Ecu) as (x & Ex & Hux). rewrite (cs_of_export _ _ Ex), Ex.
+  destruct (cu_false_export _ Ecu) as (x & Ex & Hux). rewrite (cs_of_export_t _ _ Ex).
+  destruct (export big_fuel v) as [xb|] eqn:Eb; [|intro H; destruct (not_known_invalid H)].
+  assert (xb = x) by (rewrite (et_of_export _ _ Eb) in Ex; now injection Ex). subst xb.
   destruct (json_all_ascii _ _) eqn:Ea; [|intro H; destruct (not_known_invalid H)].
   intros _. eexists x, _. split; [reflexivity|]. split.
-  - unfold spec_tojson. rewrite Hux. pose proof (export_depth_le _ _ _ Ex) as Hd. apply Nat.leb_le in Hd. rewrite Hd.
+  - unfold spec_tojson. rewrite Hux. pose proof (export_depth_le _ _ _ Eb) as Hd. apply Nat.leb_le in Hd. rewrite Hd.
     cbv zeta. rewrite Ea. reflexivity.
   - eexists _, _. split; reflexivity.
 Qed.
@@ -99,11 +110,11 @@ Theorem fromjson_inv v : cknown (fromjson_post v) = true ->
 Proof.
   unfold fromjson_post, fromjson_pure. destruct (vok AccString v); cbn [negb]; [|intro H; destruct (not_known_unknown _ _ _ H)].
   cbv zeta. destruct (contains_unknowns v) eqn:Ecu; [intro H; destruct (not_known_unknown _ _ _ H)|].
-  destruct (cu_false_export _ Ecu) as (x & Ex & Hux). rewrite (cs_of_export _ _ Ex).
+  destruct (cu_false_export _ Ecu) as (x & Ex & Hux). rewrite (cs_of_export_t _ _ Ex).
   destruct v as [|[s u sc [| | |t]|s u sc e|s u sc p] r]; try (intro H; destruct (not_known_unknown _ _ _ H)).
   destruct (json_parse t) as [j| |] eqn:Ej;
     [|intro H; destruct (not_known_unknown _ _ _ H)|intro H; destruct (not_known_invalid H)].
-  intros _. rewrite export_big_scalar in Ex. injection Ex as <-.
+  intros _. rewrite export_t_scalar in Ex. injection Ex as <-.
   rewrite xhu_scalar in Hux. subst u. rewrite xhs_scalar.
   exists (XScalar s false (SStr t)). split; [apply export_big_scalar|].
   intros xa Hxa. cbn [spec_fromjson]. rewrite Ej. exact Hxa.
@@ -166,21 +177,27 @@ Proof.
   destruct (contains_unknowns vv) eqn:Ev; [intro H; destruct (not_known_unknown _ _ _ H)|].
   intros _.
   destruct (cu_false_export _ Ed) as (xd & Exd & Hud). destruct (cu_false_export _ Ev) as (xs & Exs & Hus).
-  rewrite (cs_of_export _ _ Exd), (cs_of_export _ _ Exs).
+  rewrite (cs_of_export_t _ _ Exd), (cs_of_export_t _ _ Exs).
+  pose proof Exs as Exs_t. apply RefSem2Depth.export_t_sound in Exs.
+  pose proof (RefSem2Depth.export_t_sound _ _ Exd) as Exd'.
+  rewrite xhu_xany in Hud. pose proof Hus as Hus'. rewrite xhu_xany in Hus'.
   (* the delimiter is a known string *)
-  destruct (known_export_top _ _ Exd Hud) as (ld & rd & -> & Huld).
+  destruct (known_top_of_export _ _ _ Exd' Hud) as (ld & rd & -> & Huld).
   destruct (vok_string_inv ld rd Huld Vd) as (sd & scd & td & ->).
   (* the values are a known array of strings *)
-  destruct (known_export_top _ _ Exs Hus) as (lv & rv & -> & Hulv).
+  destruct (known_top_of_export _ _ _ Exs Hus') as (lv & rv & -> & Hulv).
   destruct (vok_arrstring_inv lv rv Hulv Vv) as (sa & sca & elems & -> & Hel).
-  rewrite export_big_scalar in Exd. injection Exd as <-.
-  destruct export_big_arr as [g Hg]. rewrite Hg in Exs.
+  rewrite export_t_scalar in Exd. injection Exd as <-.
+  rewrite export_S in Exs. set (g := cdepth (LArr sa false sca elems :: rv)) in *.
   destruct (mapM (export g) elems) as [xel|] eqn:Em; [|discriminate Exs]. injection Exs as <-.
   assert (Hstr : mapM x_str xel = Some (map str_of elems)).
   { rewrite xhu_xany in Hus. cbn [xany orb] in Hus. apply (export_str_elems g elems xel Em Hus Hel). }
   exists (XScalar sd false (SStr td)), (XArr sa false xel), (XScalar (x_has_secret (XScalar sd false (SStr td)) || x_has_secret (XArr sa false xel)) false
              (SStr (sjoin td (map str_of elems)))).
-  split; [apply export_big_scalar|]. split; [rewrite Hg, Em; reflexivity|]. split.
+  split; [apply export_big_scalar|]. split.
+  { apply RefSem2Depth.export_t_sound in Exs_t. apply (export_fuel_depth big_fuel _ _ _ Exs_t).
+    pose proof (x_depth_strs sa false xel _ Hstr). pose proof big_fuel_ge2. lia. }
+  split.
   - unfold spec_join. rewrite Hstr. reflexivity.
   - eexists _, _. split; reflexivity.
 Qed.
